@@ -411,6 +411,95 @@ def check_dense(case):
     return PASS(bounded and spelled != bare, labels)
 
 
+# ---- dense online lane -----------------------------------------------------
+
+DENSE_ON = DENSE.copy(un_temp=('once', 'historically'), bin_temp=('since',), tbin=('since',), max_depth=3, max_bound=8)
+
+
+@st.composite
+def dense_online_cases(draw, tier):
+    c = draw(dense_cases(tier))
+    f, vs = draw(F.formulas(DENSE_ON))
+    c['formula'], c['vars'] = f, vs
+    c['signals'] = {v: draw(grid_signal(0, max_samples=8)) for v in vs}
+    # the input is handed over in one call or cut in two at a grid instant
+    c['cut'] = draw(st.sampled_from([None, None, 1, 2, 3, 5, 8]))
+    return c
+
+
+def check_dense_online(case):
+    """The dense lane for the online monitor (pastified when the formula looks ahead): the three notations of one
+    configuration must report the same step function over the same span, however the bounds are spelled."""
+    from ..monitors import run_ct_on
+    f = from_json(case['formula'])
+    used = F.fvars(f)
+    labels = ['mode:dense-online'] + feature_labels(f)
+    if not used:
+        return DISCARD('no-variable', labels)
+    feed = [v for v in case['vars'] if v in used]
+    past = F.has_future(f)
+    if past and F.horizon(f) is None:
+        return DISCARD('unbounded-online', labels)
+    du, du2 = case['unit'], case['unit2']
+    q = Fraction(1, 4)
+    q_ns = q * U[du]
+    scale = Fraction(U[du], U[du2])
+    cut = case.get('cut')
+
+    def batches(sc):
+        sig = {v: [[float(k * q * sc), float(x)] for k, x in case['signals'][v]] for v in feed}
+        if cut is None:
+            return [sig]
+        first = {v: [p for (k, _), p in zip(case['signals'][v], sig[v]) if k <= cut] for v in feed}
+        second = {v: [p for (k, _), p in zip(case['signals'][v], sig[v]) if k > cut] for v in feed}
+        return [first, second]
+    bare = 'out = ' + F.show(f, F.make_scaled_bound_printer(q))
+    sp = Speller(q_ns, du, case['choices'])
+    try:
+        spelled = 'out = ' + F.show(f, sp)
+        bare2 = 'out = ' + F.show(f, F.make_scaled_bound_printer(q * scale))
+    except (AssertionError, TypeError, ZeroDivisionError):
+        return DISCARD('unprintable', labels)
+    o0 = run_ct_on(bare, feed, batches(1), unit=du, pastify=past)
+    o1 = run_ct_on(spelled, feed, batches(1), unit=du, pastify=past)
+    o2 = run_ct_on(bare2, feed, batches(scale), unit=du2, pastify=past)
+    desc = 'default unit %s%s, input cut at cell %s\nbare:    %s\nspelled: %s\nin %s:   %s\nsignals (cells of a quarter unit): %s' % (
+        du, ', pastified' if past else '', cut, bare, spelled, du2, bare2, {v: case['signals'][v] for v in feed})
+    if o0[0] != 'ok':
+        return DISCARD('bare-raises(C05/C17)', labels)
+    flat = []
+    for name, o in (('bare', o0), ('spelled', o1), ('restated', o2)):
+        if o[0] != 'ok':
+            return FAIL('dense-online-%s-raises:%s' % (name, o[1]), desc + '\n%s raised %s: %s at %s' % (name, o[1], o[3], o[4]), labels)
+        cat = [p for out in o[1] for p in out]
+        if check_shape(cat):
+            return DISCARD('shape(C05)', labels)
+        flat.append(cat)
+    c0, c1, c2 = flat
+    if not c0:
+        if c1 or c2:
+            return FAIL('dense-online-span-differs', desc + '\nbare: %r\nspelled: %r\nrestated: %r' % (c0, c1, c2), labels)
+        return PASS(False, labels)
+    if not c1 or not c2 or (c1[0][0], c1[-1][0]) != (c0[0][0], c0[-1][0]) or \
+            (Fraction(c2[0][0]), Fraction(c2[-1][0])) != (Fraction(c0[0][0]) * scale, Fraction(c0[-1][0]) * scale):
+        return FAIL('dense-online-span-differs', desc + '\nbare: %r\nspelled: %r\nrestated: %r' % (c0, c1, c2), labels)
+    k_lo = int(Fraction(c0[0][0]) / q * 2)
+    k_hi = int(Fraction(c0[-1][0]) / q * 2)
+    for k2 in range(k_lo, k_hi + 1):
+        t = Fraction(k2, 2) * q
+        if not (Fraction(c0[0][0]) <= t <= Fraction(c0[-1][0])):
+            continue
+        a = step_at(c0, float(t))
+        b = step_at(c1, float(t))
+        c = step_at(c2, float(t * scale))
+        if a is None or b is None or not same(a, b, needs_tolerance(f)):
+            return FAIL('dense-online-spelling-differs', desc + '\nat t=%s: bare %r, spelled %r\nbare result: %r\nspelled result: %r' % (float(t), a, b, c0, c1), labels)
+        if c is None or not same(a, c, needs_tolerance(f)):
+            return FAIL('dense-online-unit-change-differs', desc + '\nat t=%s: in %s %r, in %s %r\nresults: %r\n%r' % (float(t), du, a, du2, c, c0, c2), labels)
+    bounded = any(x[0] in ('tun', 'tbin') for x in F.subterms(f))
+    return PASS(bounded and spelled != bare, labels)
+
+
 @st.composite
 def dense_decimal_cases(draw, tier):
     """Dense time, default unit ms or us, time stamps and bounds whole tens of the default unit; the bounds are also spelled
@@ -831,4 +920,5 @@ LANES = [
     Lane('reject', lambda tier: reject_cases(tier), check_reject, 1500, 20000, std_candidates),
     Lane('dense_decimal', lambda tier: dense_decimal_cases(tier), check_dense_decimal, 1500, 15000, None),
     Lane('dense', lambda tier: dense_cases(tier), check_dense, 1500, 20000, cand_dense),
+    Lane('dense_online', lambda tier: dense_online_cases(tier), check_dense_online, 1500, 15000, cand_dense),
 ]
